@@ -389,6 +389,7 @@ pub fn run_case(_ctx: &Ctx, case: &Value, tag: usize, rep: &mut Report, mb: &mut
         let Ok(world) = World::new(sb, eos, false, None) else { rep.skip("world"); return; };
         rep.count("family.rows-any");
         earley_tie(&world, &g, &[], case["seed"].as_u64().unwrap_or(3), tag, rep, mb);
+        crate::lx::lexer_tie(&world, &g, &[], case["seed"].as_u64().unwrap_or(3), tag, rep, mb);
         rep.nontrivial(case["grammar"].to_string());
         return;
     }
@@ -462,6 +463,9 @@ pub fn run_case(_ctx: &Ctx, case: &Value, tag: usize, rep: &mut Report, mb: &mut
     }
     // Earley rows: the items of every row of the real parser vs the Lean model M4 of scan / agenda
     earley_tie(&world, &g, &sigma, case["seed"].as_u64().unwrap_or(11), tag, rep, mb);
+    let mut guides: Vec<Vec<u8>> = w.acc.iter().filter(|(k, a)| **a && !k.is_empty()).map(|(k, _)| k.clone()).collect();
+    guides.sort_by(|a, b| b.len().cmp(&a.len()).then(a.cmp(b)));
+    crate::lx::lexer_tie(&world, &g, &guides, case["seed"].as_u64().unwrap_or(11), tag, rep, mb);
     rep.sample(json!({"family": name, "lark": lark, "max_len": max_len, "reachable": w.acc.len()}));
 }
 
